@@ -29,9 +29,11 @@ def writeStmnt (w : W) (s : List Char) (nl : Bool) : W :=
   let w1 := if nl then writeLine w else w
   { w1 with line := w1.line + countNl s, out := w1.out ++ s }
 
-/-- `source_map_add_opcode` (called before the statement is written on a new line) -/
+/-- `source_map_add_opcode` (called before the statement is written on a new line); statements written for a label or
+another marker of the decompiler carry the offset -1 and are not recorded (repo: `if op_offset < 0: return`) -/
 def addOpcode (w : W) (off : Int) : W :=
-  { w with map := w.map ++ [(off, w.line, w.indent * ESV.Spec.spacesPerIndent)] }
+  if off < 0 then w
+  else { w with map := w.map ++ [(off, w.line, w.indent * ESV.Spec.spacesPerIndent)] }
 
 /-- length of the text behind the last newline -/
 def curCol (out : List Char) : Nat := (out.reverse.takeWhile (· != '\n')).length
